@@ -1,4 +1,9 @@
 from . import numeric
 def run(tier, seed):
+    # the oracle itself: the spec's Jacobian formulas against the literal definition in exact arithmetic
+    import vlib
+    rc, js = vlib.tlc("JacobianSanity", timeout=900)
+    if rc != 0 or js.count("JSANITY") != 8 or "FALSE" in js or js.count("TRUE") != 120:
+        raise vlib.ModelError("JacobianSanity failed:\n" + js[-2000:])
     return numeric.run("C05", tier, seed, lambda e, i: i.startswith("J") or i == "finite",
         "cells = Strata.tla PlanOf(C05): every Jacobian-returning operation x group x rotation cell x linear cell x hemisphere, second operand cells cycled, all Jacobians requested; distinct = (event, group, scalar, theta/lin bucket)")
